@@ -68,9 +68,70 @@ def run(prog, rep):
                         if l["field"] in SLOTS:
                             ent[0][l["field"]] = fn_of_ref(n["r"])
                         else:
-                            ent[1] = cv(n["r"])
+                            ent[1] = cv(n["r"]) if cv(n["r"]) is not None else guards.eval_const(n["r"], st)
+                    else:
+                        row_stores.append((l["field"], n["r"]))
         return [guards.transfer(st, stmt)]
+    row_stores = []
     Flow(nw, [guards.EMPTY], on_slot, lambda st, b, to, on: guards.edge_assume(st, b, on)).run()
+    if not cases and row_stores:
+        # table-driven form: the slots are copied from one row of a constant table selected by the type,
+        # `row = &table[type - FIRST]; obj->slot = row->slot` (or `table[type - FIRST].slot`): evaluate the row per enumerator
+        tp = nw.param_names()[0]
+
+        def index_of(e, tval):
+            e = strip_casts(e)
+            if e is None:
+                return None
+            if cv(e) is not None:
+                return cv(e)
+            if e["k"] == "ref":
+                if e["name"] == tp:
+                    return tval
+                r_ = nw.resolve(e)
+                return index_of(r_, tval) if r_ is not e else None
+            if e["k"] == "bin" and e["op"] in ("+", "-"):
+                a, b_ = index_of(e["l"], tval), index_of(e["r"], tval)
+                return None if a is None or b_ is None else (a + b_ if e["op"] == "+" else a - b_)
+            return None
+
+        def row_of(e, tval):
+            """the initialiser of the table row a pointer / element expression denotes for this type value"""
+            e = strip_casts(e)
+            if e is None:
+                return None, None
+            if e["k"] == "un" and e.get("op") == "&":
+                return row_of(e["e"], tval)
+            if e["k"] == "ref" and e.get("decl") == "local":
+                r_ = nw.resolve(e)
+                return row_of(r_, tval) if r_ is not e else (None, None)
+            if e["k"] == "idx":
+                g = strip_casts(e["base"])
+                gl = hu.globals.get(g["name"]) if g is not None and g["k"] == "ref" else None
+                ix = index_of(e["i"], tval)
+                items = (gl.get("init") or {}).get("items") if gl else None
+                if items is not None and ix is not None and 0 <= ix < len(items):
+                    return items[ix], g["name"]
+            return None, None
+        for (name_, val) in enum:
+            ent = cases.setdefault(val, [{}, None])
+            for (fld, rhs) in row_stores:
+                r = strip_casts(rhs)
+                if r is None or r["k"] != "member":
+                    continue
+                row, gname = row_of(r["base"], val)
+                rec = hu.records.get(r.get("rec"))
+                if row is None or rec is None or not row.get("items"):
+                    continue
+                names_ = [f_["name"] for f_ in rec.fields]
+                if r["field"] not in names_ or names_.index(r["field"]) >= len(row["items"]):
+                    continue
+                item = row["items"][names_.index(r["field"])]
+                if fld in SLOTS:
+                    ent[0][fld] = fn_of_ref(item)
+                else:
+                    ent[1] = cv(item)
+        cases = dict((k_, v_) for k_, v_ in cases.items() if v_[0] or v_[1] is not None)
     cases = dict((k_, (v_[0], v_[1])) for k_, v_ in cases.items())
     if not cases:
         raise AnalysisBroken("p_crypto_hash_new: no slot store under a known hash type")
@@ -196,10 +257,10 @@ def run(prog, rep):
         digs, exits, fins = [], [], []
 
         def on_stmt(st, b, i, stmt):
-            facts, closed_set, finished, dvar = st
+            facts, closed_set, finished, dvar, tested = st
             for n in walk(stmt):
                 if n["k"] == "call" and slot_pred("finish")(n):
-                    fins.append((facts, closed_set))
+                    fins.append((facts, closed_set, tested))
                     finished = True
                 if n["k"] == "call" and slot_pred("digest")(n):
                     digs.append((facts, finished))
@@ -216,14 +277,18 @@ def run(prog, rep):
                     dvar = stmt.get("name")
             if stmt.get("k") == "ret":
                 exits.append((guards.transfer(facts, stmt), closed_set, finished, dvar, flow.witness_lines(*flow.cur), line(stmt)))
-            return [(guards.transfer(facts, stmt), closed_set, finished, dvar)]
+            return [(guards.transfer(facts, stmt), closed_set, finished, dvar, tested)]
 
         def on_edge(st, b, to, on):
             f2 = guards.edge_assume(st[0], b, on)
             if f2 is not None and to == fn.exit and not (b.stmts and b.stmts[-1].get("k") == "ret"):
                 exits.append((f2, st[1], st[2], st[3], flow.witness_lines(*flow.cur), fn.loc[0]))
-            return None if f2 is None else (f2,) + st[1:]
-        flow = Flow(fn, [(guards.EMPTY, None, False, None)], on_stmt, on_edge)
+            if f2 is None:
+                return None
+            # the object was seen open on this path and nothing but this function's own store changed the flag since
+            tested = st[4] or (st[1] is None and guards.lookup(f2, "%s->closed" % fn.param_names()[0]) == 0)
+            return (f2,) + st[1:4] + (tested,)
+        flow = Flow(fn, [(guards.EMPTY, None, False, None, False)], on_stmt, on_edge)
         flow.run()
         return fins, digs, exits
 
@@ -231,7 +296,7 @@ def run(prog, rep):
         g = hu.fn(gname)
         hp = g.param_names()[0]
         fins, digs, exits = finish_flow(g)
-        ok = bool(fins) and all(open_known(x[0], hp) for x in fins)
+        ok = bool(fins) and all(x[2] or open_known(x[0], hp) for x in fins)
         msg = "finish is called on an already finished hash (reading the digest twice changes it)" if not ok else ""
         at = g.loc[0]
         # the digest is read only from a finished state: closed on entry, or finish ran on this path
@@ -275,71 +340,191 @@ def run(prog, rep):
     rep.floor("C11.2", 6)
 
     # ---- C11.3 hex -----------------------------------------------------------------------
-    tbl = hu.globals.get("pp_crypto_hash_hex_str")
+    # decided on p_crypto_hash_get_string with its helpers inlined, so it does not matter whether the encoder is a helper that
+    # fills a buffer, a helper that allocates and returns the string, or a loop in the reader itself
+    gsx = hu.fn("p_crypto_hash_get_string")
+    hpx = gsx.param_names()[0]
+    tbl_names = [g_ for g_, v_ in hu.globals.items() if strip_casts(v_.get("init") or {}) is not None and (strip_casts(v_.get("init") or {}) or {}).get("k") == "str"
+                 and len((strip_casts(v_.get("init") or {}) or {}).get("v") or "") == 16]
+    hexst = []           # stores whose value is read from a 16-character table
+    for b, i, n in gsx.nodes():
+        if n["k"] == "asg" and n.get("op") == "=":
+            r = strip_casts(n["r"])
+            if r is not None and r["k"] == "idx":
+                g_ = strip_casts(r["base"])
+                if g_ is not None and g_["k"] == "ref" and g_.get("decl") == "global" and g_["name"] in tbl_names:
+                    hexst.append((b, i, n, g_["name"], r))
+    hexst.sort(key=lambda t: (line(t[2]), t[2]["loc"][1]))
+    tname = hexst[0][3] if hexst else None
+    tbl = hu.globals.get(tname) if tname else None
     okt = tbl is not None and strip_casts(tbl.get("init", {}) or {}).get("v") == "0123456789abcdef"
-    hx = hu.fn("pp_crypto_hash_digest_to_hex")
-    rep.ob("C11.3", hx, "table", okt, "hex table is 0123456789abcdef" if okt else "the hex table is %r" % (tbl and strip_casts(tbl.get("init", {})).get("v")), hx.loc[0])
-    from plint import symx
-    sxe = symx.SymExec(hx)
-    stores = []
-    for b, i, n in hx.nodes():
-        if n["k"] == "asg" and strip_casts(n["l"])["k"] == "un" and strip_casts(n["l"])["op"] == "*":
-            st_ = symx.State()
-            idx = symx.norm(sxe.ev(strip_casts(n["l"])["e"], st_)[0][0])
-            val = symx.norm(sxe.ev(n["r"], symx.State())[0][0])
-            stores.append((idx, val, line(n)))
-    dparam, lparam, oparam = hx.param_names()
-    ivar = "i"
-    for b in hx.blocks.values():
-        if b.cond is not None and b.term and b.term.get("kind") == "for":
-            cs = strip_casts(b.cond)
-            if cs["k"] == "bin" and strip_casts(cs["l"])["k"] == "ref":
-                ivar = strip_casts(cs["l"])["name"]
-    I = ("unk", ivar)
-    okh = len(stores) == 2
+    rep.ob("C11.3", gsx, "table", okt, "hex table is 0123456789abcdef" if okt else "the hex table is %r" % (tbl and strip_casts(tbl.get("init", {})).get("v")), gsx.loc[0])
 
-    def nib(v):
-        # m0(glob table + ((X) & 15)) -> X
-        if v[0] == "m0":
-            v = v[1]
-        terms, const = symx._sum_terms(v)
-        rest = [x for (s, x) in terms if x not in (("glob", "pp_crypto_hash_hex_str"), ("m0", ("glob", "pp_crypto_hash_hex_str")))]
-        if len(rest) == 1 and rest[0][0] == "bin" and rest[0][1] == "&":
-            a, b = rest[0][2], rest[0][3]
-            if a == symx.C(15):
-                return b
-            if b == symx.C(15):
-                return a
+    def lin(e, iv):
+        """e as (base variable or None, a, b): base + a*iv + b; None when it is not of that form"""
+        e = strip_casts(e)
+        if e is None:
+            return None
+        if cv(e) is not None:
+            return (None, 0, cv(e))
+        if e["k"] == "ref":
+            if e["name"] == iv:
+                return (None, 1, 0)
+            r_ = gsx.resolve(e)
+            if r_ is not e and r_ is not None and r_["k"] != "call":
+                return lin(r_, iv)
+            return (e["name"], 0, 0)
+        if e["k"] == "member":
+            return (guards.key(e), 0, 0)
+        if e["k"] == "bin" and e["op"] in ("+", "-", "*", "<<"):
+            l, r = lin(e["l"], iv), lin(e["r"], iv)
+            if l is None or r is None:
+                return None
+            if e["op"] in ("+", "-"):
+                sg = 1 if e["op"] == "+" else -1
+                if l[0] is not None and r[0] is not None:
+                    return None
+                return (l[0] if l[0] is not None else (r[0] if sg == 1 else None), l[1] + sg * r[1], l[2] + sg * r[2]) if not (r[0] is not None and sg == -1) else None
+            k = r if (r[0] is None and r[1] == 0) else (l if (l[0] is None and l[1] == 0) else None)
+            o = l if k is r else r
+            if k is None or o[0] is not None:
+                return None
+            f = k[2] if e["op"] == "*" else (1 << k[2] if k is r else None)
+            return None if f is None else (None, o[1] * f, o[2] * f)
         return None
+
+    loops = gsx.loops()
+    okh, why = len(hexst) == 2, "the encoder makes %d table-driven stores per digest byte, not 2" % len(hexst)
+    ivar = bound = None
     if okh:
-        byte = ("m0", symx.norm(("bin", "+", ("p", dparam), I)))
-        want = {symx.norm(("bin", "+", ("p", oparam), ("bin", "<<", I, symx.C(1)))): symx.norm(("bin", ">>", byte, symx.C(4))),
-                symx.norm(("bin", "+", ("bin", "+", ("p", oparam), ("bin", "<<", I, symx.C(1))), symx.C(1))): byte}
-        for (idx, val, ln) in stores:
-            n_ = nib(val)
-            if idx not in want or n_ is None or symx.norm(n_) != want[idx]:
-                okh = False
-    lp_ok = any(b.term and b.term.get("kind") == "for" for b in hx.blocks.values())
-    cond_ok = False
-    for b in hx.blocks.values():
-        c = b.cond
-        if c is not None and b.term and b.term.get("kind") == "for":
-            cs = strip_casts(c)
-            if cs["k"] == "bin" and cs["op"] == "<" and root_var(cs["r"]) == lparam:
-                cond_ok = True
-    rep.ob("C11.3", hx, "encode", okh and lp_ok and cond_ok, "for i < len: out[2i] = table[(digest[i] >> 4) & 15], out[2i+1] = table[digest[i] & 15]" if (okh and lp_ok and cond_ok) else
-           "the hex encoder does not write high nibble at 2i and low nibble at 2i+1 for i < len", hx.loc[0])
-    gs = hu.fn("p_crypto_hash_get_string", raw=True).inlined(skip=("pp_crypto_hash_digest_to_hex",))
-    al = [c for (b, i, c) in gs.calls() if c.get("callee") in ("p_malloc0", "p_malloc")]
+        inner = [(h, body) for (h, body) in loops if hexst[0][0].id in body and hexst[1][0].id in body]
+        if not inner:
+            okh, why = False, "the two hex digits are not written in one loop"
+        else:
+            h, body = min(inner, key=lambda hb: len(hb[1]))
+            # the loop counter: compared with the bound in a condition of the loop, starts at 0, steps by one
+            for bid in body:
+                c = strip_casts(gsx.blocks[bid].cond) if gsx.blocks[bid].cond is not None else None
+                if c is not None and c["k"] == "bin" and c["op"] in ("<", "!=") and strip_casts(c["l"])["k"] == "ref":
+                    ivar, bound = strip_casts(c["l"])["name"], c["r"]
+            inits = [cv(n["r"]) for (b, i, n) in gsx.nodes() if n["k"] == "asg" and n.get("op") == "=" and strip_casts(n["l"])["k"] == "ref"
+                     and strip_casts(n["l"])["name"] == ivar and b.id not in body]
+            steps = [n for (b, i, n) in gsx.nodes(elsewhere=True) if b.id in body and ((n["k"] == "un" and ("++" in n.get("op", "")) and root_var(n["e"]) == ivar)
+                                                                                       or (n["k"] == "asg" and n.get("op") == "+=" and root_var(n["l"]) == ivar and cv(n["r"]) == 1))]
+            others = [n for (b, i, n) in gsx.nodes(elsewhere=True) if b.id in body and n["k"] == "asg" and n.get("op") == "=" and strip_casts(n["l"])["k"] == "ref"
+                      and strip_casts(n["l"])["name"] == ivar]
+            bl = lin(bound, "\0") if bound is not None else None
+            if ivar is None or inits != [0] or len(steps) != 1 or others:
+                okh, why = False, "the encoder loop does not count one variable from 0 in steps of one"
+            elif bl != ("%s->hash_len" % hpx, 0, 0):
+                okh, why = False, "the encoder loop runs to %s, not to hash_len" % show(bound)
+    dvars = set()
+    if okh:
+        # the digest pointer: the result of the digest slot (through copies)
+        for b, i, n in gsx.nodes(elsewhere=True):
+            if n["k"] == "asg" and strip_casts(n["l"])["k"] == "ref" and strip_casts(n["r"]) is not None and strip_casts(n["r"])["k"] == "call" and slot_pred("digest")(strip_casts(n["r"])):
+                dvars |= gsx.copies_of(strip_casts(n["l"])["name"])
+
+        def nibble(r):
+            """('hi'|'lo') when the table index is (D[i] >> 4) & 15 / D[i] & 15"""
+            ix = strip_casts(r["i"])
+            if ix is None or ix["k"] != "bin" or ix["op"] != "&":
+                return None
+            a, b_ = strip_casts(ix["l"]), strip_casts(ix["r"])
+            x = a if cv(b_) == 15 else (b_ if cv(a) == 15 else None)
+            if x is None:
+                return None
+            kind = "lo"
+            if x["k"] == "bin" and x["op"] == ">>" and cv(x["r"]) == 4:
+                kind, x = "hi", strip_casts(x["l"])
+            elif x["k"] == "bin":
+                return None
+            byte = None
+            if x["k"] == "idx":
+                byte = (root_var(x["base"]), lin(x["i"], ivar))
+            elif x["k"] == "un" and x["op"] == "*":
+                l_ = lin(x["e"], ivar)
+                byte = (l_[0], (None, l_[1], l_[2])) if l_ else None
+            if byte is None or byte[0] not in dvars or byte[1] != (None, 1, 0):
+                return None
+            return kind
+        kinds = [nibble(t[4]) for t in hexst]
+        # where the two digits go: explicit positions base + 2i and base + 2i + 1, or a cursor advanced once per store
+        pos = []
+        for (b, i, n, g_, r) in hexst:
+            t = strip_casts(n["l"])
+            addr = None
+            if t["k"] == "idx":
+                li = lin(t["i"], ivar)
+                addr = (root_var(t["base"]), li[1], li[2]) if li and li[0] is None else None
+            elif t["k"] == "un" and t["op"] == "*":
+                inner_ = strip_casts(t["e"])
+                if inner_ is not None and inner_["k"] == "un" and inner_.get("op") in ("post++", "++post", "p++", "++") and strip_casts(inner_["e"])["k"] == "ref":
+                    addr = ("cursor", strip_casts(inner_["e"])["name"])
+                else:
+                    addr = lin(t["e"], ivar)
+            pos.append(addr)
+        if None in kinds or kinds != ["hi", "lo"] and not (kinds == ["lo", "hi"] and all(p_ and p_[0] != "cursor" for p_ in pos)):
+            okh, why = False, "the two digits are not table[(digest[i] >> 4) & 15] then table[digest[i] & 15] (got %s)" % kinds
+        elif any(p_ is None for p_ in pos):
+            okh, why = False, "the position a hex digit is written to is not base + 2i (+1) and not an advancing cursor"
+        elif pos[0][0] == "cursor" or pos[1][0] == "cursor":
+            cur = pos[0][1]
+            h, body = min(inner, key=lambda hb: len(hb[1]))
+            cdefs = [(b, n) for (b, i, n) in gsx.nodes(elsewhere=True) if ((n["k"] == "asg" and strip_casts(n["l"])["k"] == "ref" and strip_casts(n["l"])["name"] == cur)
+                                                                             or (n["k"] == "un" and ("++" in n.get("op", "") or "--" in n.get("op", "")) and root_var(n["e"]) == cur and strip_casts(n["e"])["k"] == "ref"))]
+            inside = [n for (b, n) in cdefs if b.id in body]
+            outside = [n for (b, n) in cdefs if b.id not in body]
+            if not (pos[0] == pos[1] and kinds == ["hi", "lo"] and len(inside) == 2 and all(n["k"] == "un" and "++" in n["op"] for n in inside) and len(outside) == 1 and outside[0]["k"] == "asg"):
+                okh, why = False, "the output cursor is not set once before the loop and advanced exactly once per digit, high digit first"
+            else:
+                bufvar = root_var(outside[0]["r"])
+        else:
+            want = {"hi": (2, 0), "lo": (2, 1)}
+            if pos[0][0] != pos[1][0] or any((p_[1], p_[2]) != want[k_] for p_, k_ in zip(pos, kinds)):
+                okh, why = False, "the high digit is not written at 2i and the low digit at 2i+1 (positions %s for %s)" % ([(p_[1], p_[2]) for p_ in pos], kinds)
+            else:
+                bufvar = pos[0][0]
+    rep.ob("C11.3", gsx, "encode", okh, "for i < hash_len: out[2i] = table[(digest[i] >> 4) & 15], out[2i+1] = table[digest[i] & 15]" if okh else
+           "hex encoding: " + why, hexst[0][2] if hexst else gsx.loc[0])
+    al = [c for (b, i, c) in gsx.calls() if c.get("callee") in ("p_malloc0", "p_malloc")]
     oka = len(al) == 1 and al[0].get("callee") == "p_malloc0"
     if oka:
-        t = symx.norm(symx.SymExec(gs).ev(al[0]["args"][0], symx.State())[0][0])
-        hl = ("m0", ("fld", ("p", gs.param_names()[0]), "hash_len"))
-        oka = t == symx.norm(("bin", "+", ("bin", "*", hl, symx.C(2)), symx.C(1))) or t == symx.norm(("bin", "+", ("bin", "<<", hl, symx.C(1)), symx.C(1)))
-    hc = [c for (b, i, c) in gs.calls() if c.get("callee") == "pp_crypto_hash_digest_to_hex"]
-    oka = oka and len(hc) == 1 and guards.key(hc[0]["args"][1]) == "%s->hash_len" % gs.param_names()[0]
-    rep.ob("C11.3", gs, "buffer", oka, "the string buffer is zero-filled, 2*hash_len+1 bytes, and hash_len bytes are encoded" if oka else
-           "the hex string buffer is not p_malloc0 (2*hash_len+1) or not hash_len bytes are encoded", gs.loc[0])
+        sz = lin(al[0]["args"][0], "\0")
+        # 2 * hash_len + 1 with hash_len as the linear variable
+        e0 = strip_casts(al[0]["args"][0])
+
+        def lin_h(e):
+            e = strip_casts(e)
+            if e is None:
+                return None
+            if cv(e) is not None:
+                return (0, cv(e))
+            if e["k"] == "member" and guards.key(e) == "%s->hash_len" % hpx:
+                return (1, 0)
+            if e["k"] == "ref":
+                r_ = gsx.resolve(e)
+                return lin_h(r_) if r_ is not e else None
+            if e["k"] == "bin" and e["op"] in ("+", "*", "<<"):
+                l, r = lin_h(e["l"]), lin_h(e["r"])
+                if l is None or r is None:
+                    return None
+                if e["op"] == "+":
+                    return (l[0] + r[0], l[1] + r[1])
+                if e["op"] == "*":
+                    return (l[0] * r[1], l[1] * r[1]) if r[0] == 0 else ((r[0] * l[1], r[1] * l[1]) if l[0] == 0 else None)
+                return (l[0] << r[1], l[1] << r[1]) if r[0] == 0 else None
+            return None
+        oka = lin_h(e0) == (2, 1)
+    if oka and okh:
+        # the encoder writes into that allocation
+        av = None
+        for b, i, n in gsx.nodes(elsewhere=True):
+            if n["k"] == "asg" and strip_casts(n["r"]) is al[0] and strip_casts(n["l"])["k"] == "ref":
+                av = strip_casts(n["l"])["name"]
+        oka = av is not None and bufvar in gsx.copies_of(av)
+    rep.ob("C11.3", gsx, "buffer", oka, "the string buffer is zero-filled, 2*hash_len+1 bytes, and hash_len bytes are encoded into it" if oka else
+           "the hex string buffer is not p_malloc0 (2*hash_len+1), or the digits are not written into it", al[0] if al else gsx.loc[0])
     rep.floor("C11.3", 3)
 
     # ---- per algorithm: C11.4 .. C11.7 ----------------------------------------------------
@@ -867,6 +1052,16 @@ SELFTEST = [
          new="\tif (!hash->closed) {\n\t\thash->finish (hash->context);\n\t}\n\n\tif (P_UNLIKELY ((digest = hash->digest (hash->context)) == NULL)) {\n\t\t*len = 0;"),
     dict(id="hex-upper", file="src/pcryptohash.c", expect="C11.3",
          old="\"0123456789abcdef\"", new="\"0123456789ABCDEF\""),
+    dict(id="hex-buffer-without-terminator", file="src/pcryptohash.c", expect="C11.3",
+         old="p_malloc0 (hash->hash_len * 2 + 1)", new="p_malloc0 (hash->hash_len * 2)"),
+    dict(id="hex-loop-stops-one-early", file="src/pcryptohash.c", expect="C11.3",
+         old="\tfor (i = 0; i < len; ++i) {\n\t\t*(out + (i << 1)    )", new="\tfor (i = 0; i + 1 < len; ++i) {\n\t\t*(out + (i << 1)    )"),
+    dict(id="hex-cursor-form-neutral", file="src/pcryptohash.c", expect=None,
+         old="\t\t*(out + (i << 1)    ) = pp_crypto_hash_hex_str[(digest[i] >> 4) & 0x0F];\n\t\t*(out + (i << 1) + 1) = pp_crypto_hash_hex_str[(digest[i]     ) & 0x0F];",
+         new="\t\t*out++ = pp_crypto_hash_hex_str[(digest[i] >> 4) & 0x0F];\n\t\t*out++ = pp_crypto_hash_hex_str[(digest[i]     ) & 0x0F];"),
+    dict(id="hex-cursor-low-first", file="src/pcryptohash.c", expect="C11.3",
+         old="\t\t*(out + (i << 1)    ) = pp_crypto_hash_hex_str[(digest[i] >> 4) & 0x0F];\n\t\t*(out + (i << 1) + 1) = pp_crypto_hash_hex_str[(digest[i]     ) & 0x0F];",
+         new="\t\t*out++ = pp_crypto_hash_hex_str[(digest[i]     ) & 0x0F];\n\t\t*out++ = pp_crypto_hash_hex_str[(digest[i] >> 4) & 0x0F];"),
     dict(id="hex-nibbles-swapped", file="src/pcryptohash.c", expect="C11.3",
          old="[(digest[i] >> 4) & 0x0F];\n\t\t*(out + (i << 1) + 1) = pp_crypto_hash_hex_str[(digest[i]     ) & 0x0F];",
          new="[(digest[i]     ) & 0x0F];\n\t\t*(out + (i << 1) + 1) = pp_crypto_hash_hex_str[(digest[i] >> 4) & 0x0F];"),
